@@ -227,6 +227,14 @@ def handle (l : Line) : IO Unit := do
   | "up" => handleUp l
   | "ids" => handleIds l
   | "big" => handleBig l
+  | "longline" =>
+    -- an upload with a line of about 64 KiB between two ordinary uploads: refused and nothing left, or
+    -- accepted and every query returns everything, of it and of its neighbours, without an error
+    let a := (l.nat? "a").getD 0
+    let c := (l.nat? "c").getD 0
+    let acc := l.getD "accepted" == "1"
+    let n := if acc then (l.nat? "l").getD 0 else 0
+    IO.println s!"spec {l.id} ok={if acc then 1 else 0} errs=0 upA={a} upL={n} upC={c} by={a},{n},{c} all={a},{n},{c} lab={n} listed={if acc then 3 else 2} filesL={if acc then 2 else 0}"
   | "httpconc" =>
     -- concurrent requests to one server: each is all-or-nothing, successful ones have distinct ids
     IO.println s!"spec {l.id} okall=1 failclean=1 distinct=1 files=1 abortsfail=1"
